@@ -170,10 +170,13 @@ Proof.
     right. apply in_app_iff. right. assumption.
 Qed.
 
+Lemma skipn_add {A} (l : list A) n k : skipn (n + k) l = skipn k (skipn n l).
+Proof. revert l; induction n as [|n IH]; intros l; simpl; [reflexivity|]. destruct l; [destruct k; reflexivity|apply IH]. Qed.
+
 Lemma keys_range cols rs n k : NoDup (keys cols rs) -> NoDup (keys cols (firstn n rs ++ skipn (n + k) rs)).
 Proof.
   intros H. apply keys_app_sub with (l2 := firstn k (skipn n rs)).
-  replace (skipn (n + k) rs) with (skipn k (skipn n rs)) by (rewrite skipn_skipn; f_equal; lia).
+  rewrite skipn_add.
   rewrite (firstn_skipn k (skipn n rs)). rewrite firstn_skipn. exact H.
 Qed.
 
@@ -370,6 +373,6 @@ Qed.
 
 (* non-vacuity: a refusal really happens *)
 Example refusal_happens :
-  step (run empty_table [OAddUnique [0]; OAdd [1; 5]; OAdd [2; 5]]) (OAdd [1; 7])%Z
-  = (run empty_table [OAddUnique [0]; OAdd [1; 5]; OAdd [2; 5]], RConflict 0 0)%Z.
+  let t := run empty_table [OAddUnique [0]; OAdd [1; 5]%Z; OAdd [2; 5]%Z] in
+  step t (OAdd [1; 7]%Z) = (t, RConflict 0 0).
 Proof. reflexivity. Qed.
